@@ -1,4 +1,5 @@
 import LassoProofs.C02
+import LassoModel.Extracted
 /-
   C07 — failed interning changes nothing; exhaustion is reported exactly at capacity.
 
@@ -118,5 +119,16 @@ example : (match (Rodeo.new 1 4 1000).tryIntern C02.constEnv [1] true with
           | _ => false)
         | _ => false)
     | _ => false) = true := by decide
+
+/-! ### Tie to the source: order of effects in the single-threaded interner
+
+For `Rodeo` a failing call returns no new state in the model.  That is faithful because in the source
+both possible failures (`K::try_from_usize(..)?`, `arena.store_str(..)?`) happen before anything is
+mutated: the effect sequences regenerated from the two functions are hash, probe, key check, [store],
+push, table insert — in this order, and nothing else touches the fields. -/
+theorem rodeo_failures_precede_mutation :
+    Extracted.rodeoInternEffects = [.hashOne, .probe, .keyCheck, .store, .stringsPush, .tableInsert] ∧
+    Extracted.rodeoInternStaticEffects = [.hashOne, .probe, .keyCheck, .stringsPush, .tableInsert] := by
+  decide
 
 end Lasso.C07
